@@ -142,7 +142,13 @@ def real_cl(c):
             lin = H(ift.Linearization.make_var(s, want_metric=True))
             # the reduced Hamiltonian (StandardHamiltonian._simplify_for_constant_input_nontrivial) carries the prior only
             # on the non-constant keys: the prior energy of the constant keys is a position-independent offset it drops
-            off = 0.5 * float(np.sum(flat(s, c["constants"]) ** 2)) if c["constants"] else 0.0
+            # Two reduction steps: first the invariant keys (constants ∩ point estimates), then the remaining constants;
+            # a step that covers *all* keys of its operator collapses it to a constant holding the full value instead.
+            inv = [k for k in c["constants"] if k in c["point_estimates"]]
+            rest = [k for k in KEYS if k not in inv]
+            cst2 = [k for k in c["constants"] if k not in inv]
+            dropped = (inv if len(inv) < len(KEYS) else []) + (cst2 if len(cst2) < len(rest) else [])
+            off = 0.5 * float(np.sum(flat(s, dropped) ** 2)) if dropped else 0.0
             vals.append(float(val(lin.val)[0]) - off)
             grads.append(flat(lin.gradient, var))
             mets.append(flat(lin.metric(tz), var))
